@@ -54,9 +54,11 @@ def check(ctx):
     binp = vlib.build_harness("pow2", ["harness/pow2_drv.c"])
     rc, out, err = vlib.sh([binp], input="".join("%d\n" % n for n in ns).encode(), timeout=120)
     impl = {}
+    lg = {}
     for line in out.splitlines():
-        a, b = line.split()
+        a, b, c = line.split()
         impl[int(a)] = int(b)
+        lg[int(a)] = int(c)
     ctx["totals"]["evaluations"] += len(ns)
     ctx["totals"]["stats"]["pow2:inputs"] = len(ns)
     if rc != 0 or len(impl) != len(ns):
@@ -70,6 +72,12 @@ def check(ctx):
         res.append(("pow2-wrong", "ares_round_up_pow2(%d) = %d, least power of two >= n is %d (%d of %d inputs differ)"
                     % (n, impl[n], want(n), len(bad), len(ns)),
                     dict(extra_check="pow2", input=n, got=impl[n], want=want(n), n_wrong=len(bad))))
+    badl = [n for n in ns if impl[n] == want(n) and lg[n] != want(n).bit_length() - 1]
+    if badl:
+        n = badl[0]
+        res.append(("log2-wrong", "ares_log2(%d) = %d, expected %d (%d inputs differ)"
+                    % (want(n), lg[n], want(n).bit_length() - 1, len(badl)),
+                    dict(extra_check="pow2", input=want(n), got=lg[n], want=want(n).bit_length() - 1)))
     ok, mklog = vlib.coq_make(["Gen/LeafFns.vo"])
     gen, msg = coq_eval(ns, ctx["workdir"]) if ok else (None, "Gen/LeafFns.vo does not build")
     if gen is None or len(gen) != len(ns):
